@@ -202,6 +202,71 @@ def run_history(ctx, seed, growth=False, stock12=False):
     return viol, harness, sig, info, (rec.events, events)
 
 
+def run_paging_sessions(ctx, rng, n):
+    """A continuous paging session owns its stream id until its last page: while it lives, the id must not be handed to another
+    request, and every other request's response must reach that request's own handler.  Driven directly on a socket-less real
+    Connection (sim/conn.py) with the first page turning the handler into a paging session the way ResponseFuture does it
+    (props/c10_connection_failure.DirectRun)."""
+    from cassandra import protocol as P
+    from cassandra import connection as C
+    from sim.conn import make_classes
+    from spec import frames as F
+    from props import c10_connection_failure as X
+    mods = (P, C, F, make_classes())
+    for trial in range(n):
+        v = rng.choice([0x41, 0x42, 0x42])
+        run = X.DirectRun(mods, v)
+        conn = run.conn
+        warm = rng.choice([0, 0, 3, 50])
+        tag = 1000
+        for _ in range(warm):
+            run.send(tag, False)
+            conn.feed(run.frame_for(('resp', tag)))
+            tag += 1
+        run.send(0, True)
+        cp = run.h[0]
+        conn.feed(run.frame_for(('resp', 0)))            # first page: the callback registers the paging session
+        if cp['session'] is None:
+            raise Inconclusive("the first page did not create a paging session (harness)")
+        nreq = rng.choice([298, 301, 320, 340])
+        mid_page_at = rng.randrange(nreq)
+        pages_seen = len(X.consumer_view(cp))
+        bad = None
+        for i in range(nreq):
+            run.send(tag, False)
+            h = run.h[tag]
+            ctx.count("requests_sent_while_a_paging_session_owns_a_stream")
+            if h['rid'] == cp['rid']:
+                bad = ('stream-id-of-live-paging-session-handed-out', 'request #%d after the paging query was given stream id %d, which the '
+                       'continuous paging session still owns' % (i + 1, h['rid']))
+                break
+            conn.feed(run.frame_for(('resp', tag)))
+            if len(h['calls']) != 1 or not isinstance(h['calls'][0][1], P.ResultMessage):
+                bad = ('response-not-delivered-to-its-request', 'request #%d (stream %d) got %r for the response sent on its stream' % (
+                    i + 1, h['rid'], [type(a).__name__ for _, a in h['calls']]))
+                break
+            if i == mid_page_at:
+                conn.feed(run.frame_for(('page', 0)))
+                pages_seen += 1
+            if len(X.consumer_view(cp)) != pages_seen:
+                bad = ('paging-session-received-a-frame-of-another-request', 'the paging session on stream %d holds %d items, %d pages were '
+                       'sent to it' % (cp['rid'], len(X.consumer_view(cp)), pages_seen))
+                break
+            tag += 1
+        if bad is None:
+            conn.feed(run.frame_for(('last', 0)))
+            if not cp['session'].released:
+                bad = ('paging-session-not-released-by-its-last-page', 'session on stream %d not released after its last page' % cp['rid'])
+            elif conn._requests:
+                # (in_flight is the pool's to decrement, there is no pool here)
+                bad = ('handler-left-registered-at-quiescence', '%d handlers still registered after everything was answered' % len(conn._requests))
+        ctx.case(repr(('paging', v, warm, nreq, mid_page_at)), nontrivial=True)
+        ctx.count("paging_session_histories")
+        if bad:
+            ctx.violation(bad[0], "%s [continuous paging, v0x%x, %d warm-up requests, %d requests during the session]" % (bad[1], v, warm, nreq),
+                          {"version": v, "warm_up": warm, "requests": nreq})
+
+
 def _uid_of_held(h):
     from sim.scen import uid_of
     from sim.scen import UID_RE
@@ -216,6 +281,8 @@ def run(ctx):
     ctx.rule = ("a case is one seeded history (protocol, id-space size, 2-40 requests with per-request node behaviour rows/hold/late/silent, "
                 "optional connection reset, schedule); distinct by event-order signature of the world trace; non-trivial = at least 3 requests")
     n = ctx.scale(700, 60000)
+    if ctx.worker in (None, 0):
+        run_paging_sessions(ctx, random.Random(ctx.seed * 31 + 7), 6 if ctx.quick else 60)
     budget = 45 if ctx.quick else 420
     base = ctx.seed * 1000003 + (ctx.worker or 0) * 100003
     for i in range(n):
@@ -263,4 +330,5 @@ def run(ctx):
     ctx.floor_distinct = 150 if ctx.quick else 5000
     ctx.floor_counters = {"histories": 150, "responses_delivered_and_matched": 1000, "late_responses": 100, "invariant_evaluations_under_lock": 5000,
                           "quiescent_connections_checked_for_conservation": 100,
-                          "histories_growing_the_id_set_beyond_300": 5, "histories_v1_v2_stock_id_space_all_ids_used": 5}
+                          "histories_growing_the_id_set_beyond_300": 5, "histories_v1_v2_stock_id_space_all_ids_used": 5,
+                          "paging_session_histories": 3, "requests_sent_while_a_paging_session_owns_a_stream": 800}
